@@ -91,22 +91,22 @@ Qed.
 
 (* ---- stores: under the walker's store law the nunavutSetUxx call is defined and not TooSmall ---- *)
 Theorem c_store_defined : forall little buf off v, c_dom buf -> length v <= 64 -> off + length v <= length buf ->
-  exists r, set_uxx little (bytes_of_bits buf) (blen (bytes_of_bits buf)) (N.of_nat off) (N_of_bits v) (N.of_nat (length v)) = Some (inl r) /\
+  exists r, PrimsCur.set_uxx_cur little (bytes_of_bits buf) (blen (bytes_of_bits buf)) (N.of_nat off) (N_of_bits v) (N.of_nat (length v)) = Some (inl r) /\
             bits_of_bytes r = firstn off buf ++ v ++ skipn (off + length v) buf.
 Proof.
   intros little buf off v Hd H64 Hfit.
   pose proof (c_set_bits_is_store little buf off v Hd H64 Hfit) as H. unfold c_set_bits in H.
-  destruct (set_uxx little _ _ _ _ _) as [[r|e]|]; try discriminate H. exists r. split; [reflexivity|]. congruence.
+  destruct (PrimsCur.set_uxx_cur little _ _ _ _ _) as [[r|e]|]; try discriminate H. exists r. split; [reflexivity|]. congruence.
 Qed.
 
 (* the adapter reports success only for `Some (inl _)`: neither `None` (UB) nor `TooSmall` is ever turned into a buffer *)
 Theorem c_set_bits_some_iff : forall little buf off v r,
   set_bits (c_prims little) buf off v = Some r <->
-  exists r', set_uxx little (bytes_of_bits buf) (blen (bytes_of_bits buf)) (N.of_nat off) (N_of_bits v) (N.of_nat (length v)) = Some (inl r') /\
+  exists r', PrimsCur.set_uxx_cur little (bytes_of_bits buf) (blen (bytes_of_bits buf)) (N.of_nat off) (N_of_bits v) (N.of_nat (length v)) = Some (inl r') /\
              r = bits_of_bytes r'.
 Proof.
   intros little buf off v r. cbn [set_bits c_prims]. unfold c_set_bits.
-  destruct (set_uxx little _ _ _ _ _) as [[r'|e]|]; split.
+  destruct (PrimsCur.set_uxx_cur little _ _ _ _ _) as [[r'|e]|]; split.
   - intros H. exists r'. split; [reflexivity | congruence].
   - intros (r'' & E & ->). congruence.
   - discriminate.
